@@ -1,9 +1,11 @@
 //! vh-core: conformance harness binding the TLA+ specification to the real arkworks code.
 //!   vh-core replay <machine> --cfg <id> [--big]      TLC transition lines on stdin -> report JSON
 //!   vh-core record <machine> --cfg <id> --seed S --n N --out FILE   real executions -> ndjson trace
+mod cfgs;
 mod elem;
 mod field;
 pub mod gen_toy;
+pub mod gen_zoo;
 mod util;
 
 use serde_json::json;
@@ -18,6 +20,11 @@ fn replay_field<F: elem::Elem>(big: bool) -> util::Report {
     field::replay::<F>(util::tlc_transitions(BufReader::new(stdin.lock())), big)
 }
 
+fn record_field<F: elem::Elem>(cfg: &str, seed: u64, n: usize, out: &str) -> util::Report {
+    let mut f = std::io::BufWriter::new(std::fs::File::create(out).expect("create trace file"));
+    field::record::<F>(cfg, seed, n, &mut f)
+}
+
 fn main() {
     // panics in code under test are data: keep the default hook quiet
     std::panic::set_hook(Box::new(|_| {}));
@@ -27,7 +34,14 @@ fn main() {
     let cfg = arg(&args, "--cfg").unwrap_or_default();
     let big = args.iter().any(|a| a == "--big");
     let rep = match (cmd, machine) {
-        ("replay", "field") => with_toy_field!(cfg.as_str(), replay_field(big)),
+        ("replay", "field") if !big => with_toy_field!(cfg.as_str(), replay_field(big)),
+        ("replay", "field") => with_big_field!(cfg.as_str(), replay_field(big)),
+        ("record", "field") => {
+            let seed: u64 = arg(&args, "--seed").and_then(|s| s.parse().ok()).unwrap_or(1);
+            let n: usize = arg(&args, "--n").and_then(|s| s.parse().ok()).unwrap_or(1000);
+            let out = arg(&args, "--out").expect("--out");
+            with_big_field!(cfg.as_str(), record_field(cfg.as_str(), seed, n, out.as_str()))
+        }
         _ => {
             eprintln!("usage: vh-core replay|record <machine> --cfg <id> ...");
             std::process::exit(2);
